@@ -31,3 +31,22 @@ Proof.
   - rewrite bw_iter_size; [rewrite N2Z.id; lia| |blia].
     intros x Hx. apply cshr_div. lia.
 Qed.
+
+(* ------------------------------------------------------------------ get_value_size (page_reader.c) *)
+
+From Carquet Require Import Gen.Enums_gen Reader.PageBoundsModel.
+
+(** get_value_size(type, type_length) as a size_t, for every value of the enum parameter (also those that name no
+    physical type) and every int32_t type_length *)
+Lemma tie_reader_get_value_size (type tl : Z) :
+  c_reader_get_value_size type tl = PageBoundsModel.value_size type tl.
+Proof.
+  unfold c_reader_get_value_size, PageBoundsModel.value_size, PageBoundsModel.two64, wrapu.
+  cbv [E_CARQUET_PHYSICAL_BOOLEAN E_CARQUET_PHYSICAL_INT32 E_CARQUET_PHYSICAL_INT64 E_CARQUET_PHYSICAL_INT96
+       E_CARQUET_PHYSICAL_FLOAT E_CARQUET_PHYSICAL_DOUBLE E_CARQUET_PHYSICAL_BYTE_ARRAY
+       E_CARQUET_PHYSICAL_FIXED_LEN_BYTE_ARRAY].
+  repeat match goal with
+  | |- context [Z.eqb type ?c] => destruct (Z.eqb_spec type c); [subst; reflexivity|]
+  end.
+  reflexivity.
+Qed.
